@@ -24,7 +24,7 @@ SPEC = dict(
         technique="Coq proof (certified closure + ranking over a finite-state interleaving model, witness schedules) + switches "
                   "regenerated from source + differential scenario correspondence against the set of allowed outcomes",
         ref="DESIGN.md §6 C19, Appendix E"),
-    imports="From Ship Require Import Base Avahi.",
+    imports="From Ship Require Import Base Avahi.\nOpen Scope N_scope.",
     case_type="c19_case", check_fn="check_c19",
     drivers=[dict(bin="avahidrv", args=["-prop", "C19"], n_quick=240, n_thorough=3000, timeout=1400)],
     codes={10: "restarted_after_shutdown", 11: "stale_txt_after_down_time_call", 12: "stale_group_leaked_by_reannounce",
